@@ -1,1 +1,360 @@
-/- C15 — property theorems (to be written) -/
+/-
+  C15 — metrics collection is transparent, exact and session-isolated (the counter side).
+  Property theorems only; helper lemmas live in FtProofs/Lemmas/Metrics*.lean.
+
+  Part A speaks about the `Metrics` class alone (any client), part B about the sum-of-products
+  kernels of FtModel/MetricsKernel.lean.
+-/
+import FtProofs.Lemmas.MetricsLemmas
+import FtProofs.Lemmas.MetricsSession
+import FtProofs.Lemmas.MetricsSafe
+import FtProofs.Lemmas.MetricsKernelLemmas
+set_option linter.unusedSectionVars false
+set_option linter.unusedSimpArgs false
+set_option linter.unusedVariables false
+namespace Ft.C15
+
+/-! ## A. the class -/
+
+/-- **`beginCollect` resets every attribute**: whatever ran before, the state it leaves depends only
+    on the prefix — and on the two things it does not touch, the flush threshold
+    (`num_cached_uses`) and the trace files on disk. -/
+theorem beginCollect_const (p : Option String) (s₁ s₂ : MState)
+    (hn : s₁.numCachedUses = s₂.numCachedUses) (hf : s₁.fs = s₂.fs) :
+    step (.beginCollect p) s₁ = step (.beginCollect p) s₂ := by
+  simp [step, mBegin, hn, hf]
+
+/-- **session isolation, any client** (partial: the two histories must agree on the two things
+    `beginCollect` does not reset, the flush threshold and the files on disk): a session (`beginCollect`, any calls — each may depend on what
+    the earlier ones returned —, `endCollect`) returns the same values and leaves the same attributes
+    and files from any two earlier histories that agree on the threshold and on the files. -/
+theorem session_isolated_partial (p : Option String) (client : Prog) (s₁ s₂ : MState)
+    (hn : s₁.numCachedUses = s₂.numCachedUses) (hf : s₁.fs = s₂.fs) :
+    session p client s₁ = session p client s₂ := by
+  unfold session
+  rw [beginCollect_const p s₁ s₂ hn hf]
+
+/-- **exact counters**: after `beginCollect` and any calls that do not open another session,
+    `dump()[line][metric]` (`Compute.numOps`) is the sum of the `incCount(line', metric, n)` calls
+    with `line'.strip() = line` — nothing else moves a counter, nothing is lost. -/
+theorem dump_counts_exact (p : Option String) (calls : List MOp) (s₀ s' : MState) (rs : List MRet)
+    (hb : ∀ op ∈ calls, op.isBegin = false)
+    (h : runOps (.beginCollect p :: calls) s₀ = some (rs, s')) (line metric : String) :
+    count s' line metric = sumInc line metric calls := by
+  obtain ⟨x, s1, rs', h1, h2, _⟩ := runOps_cons h
+  simp only [step, Option.some.injEq, Prod.mk.injEq] at h1
+  rw [runOps_count h2 hb line metric, ← h1.2]
+  simp [count, mBegin, dget]
+
+/-- **exact iteration counts**: in a structured session (file traces declared after `beginCollect`,
+    then only the calls a loop nest makes, then `endCollect`), for every declared trace whose rank
+    was registered, `Compute.numIters` of its file is the number of `addUse` calls for that rank and
+    type — whatever the flush threshold, whatever the file held before. -/
+theorem numIters_eq_uses (p : String) (keys : List TKey) (body : List MOp) (s₀ s' : MState) (rs : List MRet)
+    (hbody : ∀ op ∈ body, op.inBody = true)
+    (hrun : runOps (openOps p keys ++ body ++ [.endCollect]) s₀ = some (rs, s'))
+    (r ty : String) (hk : (r, ty) ∈ keys) (hreg : registers r body = true) :
+    numIters (fileOf s' p r ty) = nUse r ty body := by
+  obtain ⟨s2, hs2, hc2, hend⟩ := session_inv hbody hrun hk
+  rw [hreg] at hc2
+  rw [numIters, mEnd_file hs2 hc2 hend]
+  omega
+
+/-- **the leak** (what the code does for a declared trace whose rank is never registered in the
+    session — its loop never starts): the file is exactly what it was before the session. -/
+theorem unregistered_trace_keeps_file (p : String) (keys : List TKey) (body : List MOp) (s₀ s' : MState)
+    (rs : List MRet) (hbody : ∀ op ∈ body, op.inBody = true)
+    (hrun : runOps (openOps p keys ++ body ++ [.endCollect]) s₀ = some (rs, s'))
+    (r ty : String) (hk : (r, ty) ∈ keys) (hreg : registers r body = false) :
+    fileOf s' p r ty = fileOf s₀ p r ty := by
+  obtain ⟨s2, hs2, hc2, hend⟩ := session_inv hbody hrun hk
+  rw [hreg] at hc2
+  exact mEnd_file_stale hs2 hc2 hend
+
+/-- hence **the iteration count is exact for every declared trace as long as no stale file is in
+    the way** (fresh prefix, or the earlier file empty): registered or not. -/
+theorem numIters_eq_uses_partial (p : String) (keys : List TKey) (body : List MOp) (s₀ s' : MState)
+    (rs : List MRet) (hbody : ∀ op ∈ body, op.inBody = true)
+    (hrun : runOps (openOps p keys ++ body ++ [.endCollect]) s₀ = some (rs, s'))
+    (r ty : String) (hk : (r, ty) ∈ keys)
+    (hfresh : registers r body = false → numIters (fileOf s₀ p r ty) = 0)
+    (huse : registers r body = false → nUse r ty body = 0) :
+    numIters (fileOf s' p r ty) = nUse r ty body := by
+  cases hreg : registers r body with
+  | true => exact numIters_eq_uses p keys body s₀ s' rs hbody hrun r ty hk hreg
+  | false =>
+    rw [unregistered_trace_keeps_file p keys body s₀ s' rs hbody hrun r ty hk hreg, hfresh hreg, huse hreg]
+
+/-- the full statement (without the freshness hypothesis) is false: **witness** — after a session
+    that traced rank K and left one row, a session that declares the same trace and never reaches
+    rank K reports one iteration; in a fresh process it reports none. -/
+theorem stale_file_witness :
+    let earlier : List MOp := openOps "p" [("K", "iter")] ++ [.registerRank "K", .addUse "K" 3 0 "iter" none, .endCollect]
+    let sess : List MOp := openOps "p" [("K", "iter")] ++ [] ++ [.endCollect]
+    ((runOps (earlier ++ sess) MState.init).map (fun x => numIters (fileOf x.2 "p" "K" "iter")) = some 1) ∧
+    ((runOps sess MState.init).map (fun x => numIters (fileOf x.2 "p" "K" "iter")) = some 0) := by
+  decide
+
+/-! ## B. kernels (the loop nests of FtModel/MetricsKernel.lean) -/
+
+theorem runOps_append_ok {a b : List MOp} {s s1 s2 : MState} {ra rb : List MRet}
+    (h1 : runOps a s = some (ra, s1)) (h2 : runOps b s1 = some (rb, s2)) :
+    runOps (a ++ b) s = some (ra ++ rb, s2) := by
+  induction a generalizing s ra with
+  | nil => simp [runOps] at h1; obtain ⟨rfl, rfl⟩ := h1; simpa using h2
+  | cons op a ih =>
+    obtain ⟨r, sm, rs', g1, g2, rfl⟩ := runOps_cons h1
+    have := ih g2
+    simp [runOps, g1, this]
+
+theorem runOps_cons_ok {op : MOp} {ops : List MOp} {s s1 s' : MState} {r : MRet} {rs : List MRet}
+    (h1 : step op s = some (r, s1)) (h2 : runOps ops s1 = some (rs, s')) :
+    runOps (op :: ops) s = some (r :: rs, s') := by
+  simp [runOps, h1, h2]
+
+theorem open_ok (p : String) (keys : List TKey) (s₀ : MState) :
+    ∃ rs s, runOps (openOps p keys) s₀ = some (rs, s) := by
+  have : ∀ (keys : List TKey) (s : MState), DeclInv p s₀.fs s →
+      ∃ rs s', runOps (keys.map (fun k => MOp.trace k.1 k.2 false)) s = some (rs, s') := by
+    intro keys
+    induction keys with
+    | nil => intro s _; exact ⟨[], s, rfl⟩
+    | cons k keys ih =>
+      intro s hd
+      have hg : mTrace k.1 k.2 false s = some (setTrace s (k.1, k.2)
+          { (dget s.traces (k.1, k.2)).getD { file := none, mem := none, started := false } with file := some [] }) := by
+        simp [mTrace, hd.sinv.pfx, hd.sinv.coll, setTrace]
+      obtain ⟨hd1, _, _⟩ := mTrace_decl hd hg
+      obtain ⟨rs, s', h'⟩ := ih _ hd1
+      exact ⟨MRet.unit :: rs, s', runOps_cons_ok (by simp [step, hg]) h'⟩
+  obtain ⟨rs, s, h⟩ := this keys _ (mBegin_decl p s₀)
+  exact ⟨MRet.unit :: rs, s, runOps_cons_ok (by simp [step]) h⟩
+
+/-- **the `Metrics` calls of a kernel never fail**: from any earlier state, opening a session with any
+    set of file traces, running the kernel's calls and closing the session goes through — every
+    `addUse`/`incIter`/`endIter` finds its rank registered, every flush and header write succeeds. -/
+theorem kernel_calls_safe (k : Kernel) (z : ATree) (ops : List Operand) (p : String) (keys : List TKey)
+    (s₀ : MState) :
+    ∃ rs s', runOps (openOps p keys ++ callsOf (kernelEvents k z ops) ++ [.endCollect]) s₀ = some (rs, s') := by
+  obtain ⟨r1, s1, h1⟩ := open_ok p keys s₀
+  obtain ⟨hd, _⟩ := open_inv h1
+  have hr1 : RInv p s1 :=
+    ⟨hd.sinv, [], [], [], [], [], hd.lo, hd.it, hd.lp, hd.pt, hd.met, fun r i h => by simp [dget] at h⟩
+  obtain ⟨r2, s2, h2, hr2⟩ := run_safe (callsOf (kernelEvents k z ops)) [] s1 hr1
+    ⟨[], hd.lo, fun r h => by simp at h⟩ (runK_safe _ _ _ _ _ [])
+  obtain ⟨s3, h3⟩ := mEnd_ok hr2.1
+  have h3' : runOps [MOp.endCollect] s2 = some ([.unit], s3) := by simp [runOps, step, h3]
+  exact ⟨_, s3, runOps_append_ok (runOps_append_ok h1 h2) h3'⟩
+
+/-- **transparency** (partial: the collecting-only assertion of `lshift_iterator` must not fire):
+    a collecting session around the kernel — any prefix, any set of traces, any earlier state —
+    completes and leaves the tensor the kernel computes with collection off. -/
+theorem kernel_transparent_partial (k : Kernel) (z : ATree) (ops : List Operand) (p : String) (keys : List TKey)
+    (s₀ : MState) (hok : assertsOk (kernelEvents k z ops) = true) :
+    ∃ s', kernelSession k z ops p keys s₀ = some (runPlain k z ops, s') := by
+  obtain ⟨rs, s', h⟩ := kernel_calls_safe k z ops p keys s₀
+  refine ⟨s', ?_⟩
+  simp only [kernelEvents] at hok h
+  show (if assertsOk (runK k.declared k.loops k.out z ops).2 = true then _ else none) = _
+  rw [if_pos hok, h]; rfl
+
+/-- … which is guaranteed when the output tensor was created with a shape -/
+theorem kernel_transparent_declared (k : Kernel) (z : ATree) (ops : List Operand) (p : String) (keys : List TKey)
+    (s₀ : MState) (hd : k.declared = true) :
+    ∃ s', kernelSession k z ops p keys s₀ = some (runPlain k z ops, s') := by
+  apply kernel_transparent_partial
+  unfold kernelEvents
+  rw [hd]
+  exact assertsOk_of_declared _ _ _ _
+
+/-- the unrestricted statement is false: **witness** — accumulating `a` into an output vector that
+    already holds an element and was created without a shape aborts with collection on and runs with
+    collection off. -/
+theorem kernel_assert_witness :
+    let k : Kernel := { loops := ["K"], out := ["K"], declared := false }
+    let z : ATree := ⟨1, [((0 : Int), (1 : Int))]⟩
+    let a : Operand := { ranks := ["K"], t := ⟨1, [((1 : Int), (2 : Int))]⟩ }
+    (kernelSession k z [a] "p" [] MState.init).isNone = true ∧
+    (show List (Int × Int) from castT 1 (runPlain k z [a]) []) = [((0 : Int), (1 : Int)), ((1 : Int), (2 : Int))] := by
+  decide
+
+theorem sumInc_traces (line metric : String) (keys : List TKey) :
+    sumInc line metric (keys.map (fun k => MOp.trace k.1 k.2 false)) = 0 := by
+  induction keys with
+  | nil => rfl
+  | cons k ks ih => simp [sumInc, ih]
+
+/-- **exact counts**: after the collecting session `dump()["Compute"]` shows exactly the payload
+    operators the kernel executed — `payload_mul` the `*`, `payload_update` the `+=`, `payload_add`
+    the `+=` on an accumulator that already held a non-zero value — and no other line or metric. -/
+theorem kernel_counts_exact (k : Kernel) (z : ATree) (ops : List Operand) (p : String) (keys : List TKey)
+    (s₀ s' : MState) (out : ATree) (h : kernelSession k z ops p keys s₀ = some (out, s')) :
+    count s' "Compute" "payload_mul" = nMul (kernelEvents k z ops) ∧
+    count s' "Compute" "payload_update" = nUpd (kernelEvents k z ops) ∧
+    count s' "Compute" "payload_add" = nAdd (kernelEvents k z ops) := by
+  unfold kernelSession at h
+  simp only at h
+  split at h
+  · simp only [Option.map_eq_some_iff, Prod.mk.injEq] at h
+    obtain ⟨⟨rs, s1⟩, hrun, _, rfl⟩ := h
+    have hb : ∀ op ∈ keys.map (fun k => MOp.trace k.1 k.2 false) ++ callsOf (kernelEvents k z ops) ++ [MOp.endCollect],
+        op.isBegin = false := by
+      intro op hop
+      simp only [List.mem_append, List.mem_map, List.mem_singleton] at hop
+      rcases hop with (⟨k, _, rfl⟩ | hop) | rfl
+      · rfl
+      · have := inBody_of_safe _ [] (runK_safe _ _ _ _ _ []) op hop
+        cases op <;> simp [MOp.inBody] at this <;> rfl
+      · rfl
+    have hrun' : runOps (MOp.beginCollect (some p) ::
+        (keys.map (fun k => MOp.trace k.1 k.2 false) ++ callsOf (kernelEvents k z ops) ++ [MOp.endCollect])) s₀ = some (rs, s1) := by
+      simpa [openOps, kernelEvents] using hrun
+    have key := fun m => dump_counts_exact (some p) _ s₀ s1 rs hb hrun' "Compute" m
+    obtain ⟨b1, b2, b3⟩ := runK_bal k.declared k.loops k.out z ops
+    simp only [cnt] at b1 b2 b3
+    refine ⟨?_, ?_, ?_⟩
+    · rw [key, sumInc_append, sumInc_append, sumInc_traces]; simp [sumInc, kernelEvents, b1]
+    · rw [key, sumInc_append, sumInc_append, sumInc_traces]; simp [sumInc, kernelEvents, b2]
+    · rw [key, sumInc_append, sumInc_append, sumInc_traces]; simp [sumInc, kernelEvents, b3]
+  · cases h
+
+/-- **iteration count = loop bodies** (partial: no rank of format "U", and no stale file of a rank
+    the kernel never reaches): for every rank traced with the "iter" trace, `Compute.numIters` of its
+    file is the number of loop bodies the kernel executed at that rank. -/
+theorem kernel_numIters_eq_bodies_partial (k : Kernel) (z : ATree) (ops : List Operand) (p : String)
+    (keys : List TKey) (s₀ s' : MState) (out : ATree)
+    (hU : ∀ o ∈ ops, o.uShape = none)
+    (h : kernelSession k z ops p keys s₀ = some (out, s'))
+    (r : String) (hk : (r, "iter") ∈ keys)
+    (hfresh : registers r (callsOf (kernelEvents k z ops)) = false → numIters (fileOf s₀ p r "iter") = 0) :
+    numIters (fileOf s' p r "iter") = nBody r (kernelEvents k z ops) := by
+  unfold kernelSession at h
+  simp only at h
+  split at h
+  · simp only [Option.map_eq_some_iff, Prod.mk.injEq] at h
+    obtain ⟨⟨rs, s1⟩, hrun, _, rfl⟩ := h
+    have hsafe := runK_safe k.declared k.loops k.out z ops []
+    have hub := runK_ub k.declared k.loops k.out z ops hU r
+    show _ = nBody r (runK k.declared k.loops k.out z ops).2
+    rw [← hub]
+    exact numIters_eq_uses_partial p keys _ s₀ s1 rs (inBody_of_safe _ [] hsafe) hrun r "iter" hk hfresh
+      (fun hreg => nUse_zero_of_safe r "iter" _ [] hsafe rfl hreg)
+  · cases h
+
+/-- the "U" hypothesis is needed: **witness** — a leaf rank of format "U" and shape 2 runs two loop
+    bodies and leaves a header-only "iter" trace. -/
+theorem kernel_formatU_witness :
+    let k : Kernel := { loops := ["K"], out := [], declared := true }
+    let a : Operand := { ranks := ["K"], t := ⟨1, [((0 : Int), (5 : Int))]⟩, uShape := some 2 }
+    nBody "K" (kernelEvents k ⟨0, (0 : Int)⟩ [a]) = 2 ∧
+    (kernelSession k ⟨0, (0 : Int)⟩ [a] "p" [("K", "iter")] MState.init).map
+      (fun x => numIters (fileOf x.2 "p" "K" "iter")) = some 0 := by
+  decide
+
+/-- **session isolation for kernels, counter side** (partial: the collecting-only assertion must not
+    fire; iteration counts only for ranks the kernel reaches): from ANY two earlier states (different
+    thresholds, different files, sessions left open, …) the collecting session around the same
+    kernel completes with the same tensor, the same value of every counter, and the same iteration
+    count in the file of every declared trace whose rank the kernel reaches. -/
+theorem kernel_session_isolated_partial (k : Kernel) (z : ATree) (ops : List Operand) (p : String) (keys : List TKey)
+    (s₁ s₂ : MState) (hok : assertsOk (kernelEvents k z ops) = true) :
+    ∃ s₁' s₂', kernelSession k z ops p keys s₁ = some (runPlain k z ops, s₁') ∧
+      kernelSession k z ops p keys s₂ = some (runPlain k z ops, s₂') ∧
+      (∀ line metric, count s₁' line metric = count s₂' line metric) ∧
+      (∀ r ty, (r, ty) ∈ keys → registers r (callsOf (kernelEvents k z ops)) = true →
+        numIters (fileOf s₁' p r ty) = numIters (fileOf s₂' p r ty)) := by
+  obtain ⟨rs1, t1, h1⟩ := kernel_calls_safe k z ops p keys s₁
+  obtain ⟨rs2, t2, h2⟩ := kernel_calls_safe k z ops p keys s₂
+  have hsafe := runK_safe k.declared k.loops k.out z ops []
+  have hin := inBody_of_safe _ [] hsafe
+  have hb : ∀ op ∈ keys.map (fun k => MOp.trace k.1 k.2 false) ++ callsOf (kernelEvents k z ops) ++ [MOp.endCollect],
+      op.isBegin = false := by
+    intro op hop
+    simp only [List.mem_append, List.mem_map, List.mem_singleton] at hop
+    rcases hop with (⟨k, _, rfl⟩ | hop) | rfl
+    · rfl
+    · have := hin op hop
+      cases op <;> simp [MOp.inBody] at this <;> rfl
+    · rfl
+  refine ⟨t1, t2, ?_, ?_, ?_, ?_⟩
+  · simp only [kernelEvents] at hok h1
+    show (if assertsOk (runK k.declared k.loops k.out z ops).2 = true then _ else none) = _
+    rw [if_pos hok, h1]; rfl
+  · simp only [kernelEvents] at hok h2
+    show (if assertsOk (runK k.declared k.loops k.out z ops).2 = true then _ else none) = _
+    rw [if_pos hok, h2]; rfl
+  · intro line metric
+    rw [dump_counts_exact (some p) _ s₁ t1 rs1 hb (by simpa [openOps] using h1),
+      dump_counts_exact (some p) _ s₂ t2 rs2 hb (by simpa [openOps] using h2)]
+  · intro r ty hk hreg
+    rw [numIters_eq_uses p keys _ s₁ t1 rs1 hin h1 r ty hk hreg,
+      numIters_eq_uses p keys _ s₂ t2 rs2 hin h2 r ty hk hreg]
+
+/-! ## non-vacuity: the hypotheses are met by non-trivial values, the conclusions say something -/
+section
+/-- a state left by an earlier, unfinished session -/
+private def dirty : MState :=
+  { collecting := true, fiberLabel := [("K", 3)], iteration := some [4], lineOrder := some [("K", 0)],
+    loopOrder := some ["K"], metrics := some [("Compute", [("payload_mul", 7)])], point := some [2],
+    pfx := some "q", traces := [(("K", "iter"), ⟨some [.dat [1, 2, 3]], none, true⟩)] }
+
+-- beginCollect_const / session_isolated: two very different histories meet the hypotheses
+example : dirty.numCachedUses = MState.init.numCachedUses ∧ dirty.fs = MState.init.fs ∧ dirty ≠ MState.init := by decide
+example : step (.beginCollect (some "p")) dirty = step (.beginCollect (some "p")) MState.init :=
+  beginCollect_const _ _ _ rfl rfl
+
+/-- a structured session: two traces, a two-level loop nest, counters on a padded line name -/
+private def body1 : List MOp :=
+  [.registerRank "M", .addUse "M" 0 0 "iter" none, .registerRank "K", .getLabel "K",
+   .addUse "K" 3 0 "iter" none, .incCount " Compute " "payload_mul" 1, .incIter "K",
+   .addUse "K" 5 1 "iter" none, .incCount "Compute" "payload_mul" 1, .incCount "Compute" "payload_add" 1, .incIter "K",
+   .addUse "K" 7 2 "iter" none, .incIter "K", .endIter "K", .incIter "M", .endIter "M"]
+private def keys1 : List TKey := [("K", "iter"), ("M", "iter"), ("N", "iter")]
+/-- an earlier session: flush threshold 2, the same prefix and trace, one row -/
+private def hist1 : List MOp :=
+  [.setNumCachedUses 2] ++ openOps "p" [("K", "iter"), ("N", "iter")] ++
+    [.registerRank "N", .addUse "N" 1 0 "iter" none, .registerRank "K", .addUse "K" 9 0 "iter" none, .endCollect]
+
+-- dump_counts_exact / numIters_eq_uses: the run exists (from the state the earlier session left:
+-- threshold 2, so the three K rows are flushed in two pieces), K is registered, 3 uses, 2 muls
+example : ((runOps hist1 MState.init).bind (fun h => runOps (openOps "p" keys1 ++ body1 ++ [.endCollect]) h.2)).map
+    (fun x => (numIters (fileOf x.2 "p" "K" "iter"), count x.2 "Compute" "payload_mul",
+      -- N is declared but never registered: the earlier session's row is still there
+      numIters (fileOf x.2 "p" "N" "iter"))) = some (3, 2, 1) := by decide
+example : (∀ op ∈ body1, op.inBody = true) ∧ registers "K" body1 = true ∧ nUse "K" "iter" body1 = 3 ∧
+    registers "N" body1 = false ∧ sumInc "Compute" "payload_mul" body1 = 2 := by decide
+
+/-- column sums `Z_k = Σ_m A_mk`: the output fiber is revisited for every `m` -/
+private def kCol : Kernel := { loops := ["M", "K"], out := ["K"], declared := true }
+private def aCol : Operand :=
+  { ranks := ["M", "K"], t := ⟨2, [((0 : Int), [((0 : Int), (1 : Int)), ((1 : Int), (2 : Int))]), ((1 : Int), [((0 : Int), (-1 : Int)), ((2 : Int), (4 : Int))])]⟩ }
+
+-- kernel_transparent_*: the assertion is reached (the output is revisited while non-empty) and passes
+example : assertsOk (kernelEvents kCol ⟨1, []⟩ [aCol]) = true ∧
+    (kernelEvents kCol ⟨1, []⟩ [aCol]).any (fun e => match e with | .assertShape _ _ => true | _ => false) = true := by
+  decide
+-- … the sum at k = 0 cancels (1 + -1) and is removed, 4 updates, 1 addition on a non-empty accumulator,
+-- 2 bodies at M and 4 at K; the session exists and reports exactly that
+example : (show List (Int × Int) from castT 1 (runPlain kCol ⟨1, []⟩ [aCol]) []) = [((1 : Int), (2 : Int)), ((2 : Int), (4 : Int))] ∧
+    nUpd (kernelEvents kCol ⟨1, []⟩ [aCol]) = 4 ∧ nAdd (kernelEvents kCol ⟨1, []⟩ [aCol]) = 1 ∧
+    nBody "M" (kernelEvents kCol ⟨1, []⟩ [aCol]) = 2 ∧ nBody "K" (kernelEvents kCol ⟨1, []⟩ [aCol]) = 4 := by decide
+example : (kernelSession kCol ⟨1, []⟩ [aCol] "p" [("K", "iter"), ("M", "iter")] dirty).map
+    (fun x => (count x.2 "Compute" "payload_update", count x.2 "Compute" "payload_add",
+      numIters (fileOf x.2 "p" "K" "iter"), numIters (fileOf x.2 "p" "M" "iter"))) = some (4, 1, 4, 2) := by decide
+example : (∀ o ∈ [aCol], o.uShape = none) ∧ registers "K" (callsOf (kernelEvents kCol ⟨1, []⟩ [aCol])) = true := by decide
+
+/-- matrix multiply `Z_mn = Σ_k A_mk B_kn` in the order M, K, N (intersections are well-founded
+    recursions: tested with `#guard`, not `decide`) -/
+private def kMM : Kernel := { loops := ["M", "K", "N"], out := ["M", "N"], declared := true }
+private def aMM : Operand := { ranks := ["M", "K"], t := ⟨2, [((0 : Int), [((0 : Int), (1 : Int)), ((1 : Int), (2 : Int))]), ((1 : Int), [((1 : Int), (3 : Int))])]⟩ }
+private def bMM : Operand := { ranks := ["K", "N"], t := ⟨2, [((0 : Int), [((0 : Int), (1 : Int))]), ((1 : Int), [((0 : Int), (4 : Int)), ((1 : Int), (5 : Int))])]⟩ }
+#guard (kernelSession kMM ⟨2, []⟩ [aMM, bMM] "p" [("K", "iter"), ("N", "iter")] MState.init).map
+    (fun x => (count x.2 "Compute" "payload_mul", count x.2 "Compute" "payload_update", count x.2 "Compute" "payload_add",
+      numIters (fileOf x.2 "p" "K" "iter"), numIters (fileOf x.2 "p" "N" "iter"))) == some (5, 5, 1, 3, 5)
+#guard nMul (kernelEvents kMM ⟨2, []⟩ [aMM, bMM]) == 5 && nBody "N" (kernelEvents kMM ⟨2, []⟩ [aMM, bMM]) == 5 &&
+  assertsOk (kernelEvents kMM ⟨2, []⟩ [aMM, bMM])
+-- the same kernel into an output created without a shape aborts at the second k
+#guard (kernelSession { kMM with declared := false } ⟨2, []⟩ [aMM, bMM] "p" [] MState.init).isNone
+end
+
+end Ft.C15
